@@ -186,6 +186,26 @@ class Storage:
             self.write(name, di)
 
 
+def _mem_bytecode_cache():
+    """A per-run in-memory bytecode cache through jinja's documented extension point (real Bucket checksum /
+    marshal path).  It must never change what the template cache serves."""
+    import jinja2
+
+    class MemBC(jinja2.BytecodeCache):
+        def __init__(self):
+            self.d = {}
+
+        def load_bytecode(self, bucket):
+            s_ = self.d.get(bucket.key)
+            if s_ is not None:
+                bucket.bytecode_from_string(s_)
+
+        def dump_bytecode(self, bucket):
+            self.d[bucket.key] = bucket.bytecode_to_string()
+
+    return MemBC()
+
+
 def canon(name: str) -> str:
     """'./a' and 'a' are the same file for FileSystemLoader but different cache keys."""
     return name[2:] if name.startswith("./") else name
@@ -336,6 +356,7 @@ def run_concurrent(tape) -> Outcome:
     wops = [(("modify", "modify", "delete", "add")[tape.draw(4)], tape.pick(names)) for _ in range(1 + tape.draw(3))]
     warm = [(tape.draw(2) if two_envs else 0, tape.pick(names)) for _ in range(tape.draw(3))]
     initial = [tape.draw(4) != 0 for _ in names]
+    with_bcc = tape.draw(3, "m") == 2
 
     def execute(sched_tape, plan, serial):
         clear_process_caches()
@@ -346,7 +367,8 @@ def run_concurrent(tape) -> Outcome:
         for n, present in zip(names, initial):
             if present:
                 hist[n] = [(0, st.write(n))]
-        env0 = jinja2.Environment(loader=st.make_loader(), auto_reload=auto_reload, cache_size=size)
+        env0 = jinja2.Environment(loader=st.make_loader(), auto_reload=auto_reload, cache_size=size,
+                                  bytecode_cache=_mem_bytecode_cache() if with_bcc else None)
         envs = [env0, env0.overlay()] if two_envs else [env0]
         for e_ in envs:
             T.scan_replace_locks(e_)
@@ -416,8 +438,9 @@ def run_concurrent(tape) -> Outcome:
     out.count("preemptions_fired", sched.preempts_fired)
     out.count("lock_contention_blocks", sched.lock_blocks)
     out.count("conc_loader_" + kind)
+    out.count("runs_with_bytecode_cache", 1 if with_bcc else 0)
     dec = {"mode": "concurrent", "loader": kind, "auto_reload": auto_reload, "cache_size": size, "names": names,
-           "environments": len(envs), "initial": initial, "warmup": warm, "readers": rprogs, "writer": wops,
+           "environments": len(envs), "bytecode_cache": with_bcc, "initial": initial, "warmup": warm, "readers": rprogs, "writer": wops,
            "plan(tid,local_step,target)": plan, "switch_trace": sched.trace[:40],
            "timeline": {n: hist[n] for n in names}, "records": [[list(map(str, r)) if r else None for r in rs] for rs in records]}
     out.decoded = dec
@@ -495,7 +518,7 @@ def run_concurrent(tape) -> Outcome:
     dec["post_quiescence"] = post
     if overlapped:
         out.count("conc_change_inside_an_operation_window")
-        out.case = digest(["conc", kind, auto_reload, size, rprogs, wops, warm, initial, sched.trace])
+        out.case = digest(["conc", kind, auto_reload, size, with_bcc, rprogs, wops, warm, initial, sched.trace])
     return out
 
 
@@ -526,7 +549,9 @@ def run(tape) -> Outcome:
     st = Storage(kind, fs)
     for n in names[: 1 + tape.draw(nnames)]:
         st.write(n, tape.draw(st.ndirs))
-    env0 = jinja2.Environment(loader=st.make_loader(), auto_reload=auto_reload, cache_size=size)
+    with_bcc = tape.draw(3, "m") == 2  # an (in-memory) bytecode cache must not change what the template cache serves
+    env0 = jinja2.Environment(loader=st.make_loader(), auto_reload=auto_reload, cache_size=size,
+                              bytecode_cache=_mem_bytecode_cache() if with_bcc else None)
     two_envs = tape.draw(3) == 2  # a second environment (overlay) sharing the loader object, with its own cache
     envs = [env0, env0.overlay()] if two_envs else [env0]
     models = [Model(size, auto_reload, kind) for _ in envs]
@@ -684,10 +709,11 @@ def run(tape) -> Outcome:
     out.count("histories_alias_names", 1 if aliases else 0)
     out.count("faults_fired_" + str(fault_kind), fired_faults)
     out.count("histories_with_fault", 1 if faulty else 0)
+    out.count("runs_with_bytecode_cache", 1 if with_bcc else 0)
     out.decoded = {"loader": kind, "auto_reload": auto_reload, "cache_size": size, "names": names, "environments": len(envs),
-                   "alias_names": aliases, "ops": ops_dec,
+                   "alias_names": aliases, "bytecode_cache": with_bcc, "ops": ops_dec,
                    "fault": {"op": fault_op, "kind": fault_kind} if faulty else None}
     out.trace = digest(ops_dec)
     if out.sig is None and (nontrivial or any(m.evictions for m in models) or fired_faults):
-        out.case = digest([kind, auto_reload, size, ops_dec])
+        out.case = digest([kind, auto_reload, size, with_bcc, ops_dec])
     return out
